@@ -11,6 +11,7 @@ Python equivalents of engineering Excel functions.
 """
 import itertools
 import functools
+import numpy as np
 import schedula as sh
 from . import wrap_func, flatten, Error, XlError
 
@@ -19,7 +20,7 @@ FUNCTIONS = {}
 
 def _parseX(x):
     x = list(flatten(x, None))
-    if len(x) == 1 and not isinstance(x[0], bool):
+    if len(x) == 1 and not isinstance(x[0], (bool, np.bool_)):
         x = x[0]
         if isinstance(x, XlError):
             return x
@@ -34,7 +35,7 @@ def _parseX(x):
 
 def _parseDEC(x):
     x = list(flatten(x, None))
-    if len(x) == 1 and not isinstance(x[0], bool):
+    if len(x) == 1 and not isinstance(x[0], (bool, np.bool_)):
         x = x[0]
         if isinstance(x, XlError):
             return x
